@@ -194,7 +194,7 @@ _ENUM = None
 class C07Check(Check):
     prop = "C07"
     design_ref = "DESIGN.md section 4, C07"
-    runs = {"quick": 4000, "thorough": 400000}
+    runs = {"quick": 4000, "thorough": 2500000}
     rule = ("plans = (storage class, capacity, store_targets, p, RNG mode, stream of uniquely tagged updates in three call "
             "styles, adversary-tape bursts); non-trivial = at least one update after which the content was checked with a "
             "replacement having happened (reservoirs) or any update (window storages); distinct = digest of the content "
